@@ -206,11 +206,123 @@ def check_description(desc, out, stats):
     stats["descriptions-ok"] = stats.get("descriptions-ok", 0) + 1
 
 
+def _resolve(doc, node):
+    while isinstance(node, dict) and "$ref" in node:
+        name = node["$ref"].rsplit("/", 1)[-1]
+        node = doc.get("definitions", {}).get(name)
+    return node
+
+
+def check_description_twins(d1, d2, place, out, stats):
+    """two object schemas with one title, alike except for their descriptions (d2 may be absent)"""
+    def obj(d):
+        s = {"type": "object", "title": "Address", "properties": {"street": {"type": "string"}}}
+        if d is not None:
+            s["description"] = d
+        return s
+    if place == "properties":
+        schema = {"type": "object", "title": "Outer", "properties": {"first": obj(d1), "second": obj(d2)}}
+        pick = lambda el: (el.properties["first"].element, el.properties["second"].element)
+        jpick = lambda doc: (doc["properties"]["first"], doc["properties"]["second"])
+    elif place == "tuple-items":
+        schema = {"type": "array", "items": [obj(d1), obj(d2)]}
+        pick = lambda el: (el.items[0], el.items[1])
+        jpick = lambda doc: (doc["items"][0], doc["items"][1])
+    else:
+        schema = {"title": "Outer", "anyOf": [obj(d1), {"type": "array", "items": obj(d2)}]}
+        pick = lambda el: (el.elements[0], el.elements[1].items)
+        jpick = lambda doc: (doc["anyOf"][0], _resolve(doc, doc["anyOf"][1])["items"])
+    case = {"twins": [d1, d2], "place": place, "schema": schema}
+    out.note_case(case, True)
+    status, el = core.real_parse(schema)
+    if status != "ok":
+        return
+    region = None if all(d is None or safe_description(d) for d in (d1, d2)) else "C07-docstring-quoting"
+
+    def fail(what):
+        out.failures.append({"case": case, "what": what, "finding": region})
+
+    want = (d1, d2)
+    try:
+        got = tuple(getattr(x, "description", None) if isinstance(getattr(x, "description", None), str) else None for x in pick(el))
+    except Exception as exc:  # noqa: BLE001
+        fail(f"parsed tree has an unexpected shape: {type(exc).__name__}")
+        return
+    if got != want:
+        fail(f"descriptions of the two parsed classes are {got!r}, the schemas say {want!r}")
+        return
+    try:
+        doc = _plain(serialize_json(el))
+        jgot = tuple((_resolve(doc, n) or {}).get("description") for n in jpick(doc))
+    except Exception as exc:  # noqa: BLE001
+        fail(f"cannot read the descriptions back from the JSON serialization: {type(exc).__name__}")
+        return
+    if jgot != want:
+        fail(f"JSON serialization carries descriptions {jgot!r}, the schemas say {want!r}")
+        return
+    src = serialize_python(el)
+    ns = {}
+    try:
+        exec(compile(src, "<generated>", "exec"), ns)  # noqa: S102
+    except Exception as exc:  # noqa: BLE001
+        fail(f"generated Python does not execute: {type(exc).__name__}")
+        return
+    from statham.schema.elements.meta import ObjectMeta
+    docs = sorted(str(c.__doc__) for n, c in ns.items() if isinstance(c, ObjectMeta) and n.startswith("Address"))
+    if docs != sorted(str(d) for d in want):
+        fail(f"docstrings of the generated classes are {docs!r}, the schemas say {sorted(str(d) for d in want)!r}")
+        return
+    stats["twins-ok"] = stats.get("twins-ok", 0) + 1
+
+
+def check_shared_default(kw, d, order, target, out, stats):
+    """one schema dict *object* used in two places (what resolving `$ref`s produces); one use sits alone inside a
+    composition keyword with a default beside it: the default belongs to that use only"""
+    shared = {"type": "string", "maxLength": 9} if target == "leaf" else {"type": "array", "items": {"type": "integer"}}
+    wrapped = {kw: [shared], "default": d}
+    props = {"plain": shared, "wrapped": wrapped} if order == "plain-first" else {"wrapped": wrapped, "plain": shared}
+    schema = {"type": "object", "title": "Outer", "properties": props, "definitions": {"name": shared}}
+    case = {"shared_default": {"keyword": kw, "default": core.enc_val(d), "order": order, "target": target}}
+    out.note_case(case, True)
+    from statham.schema.parser import parse
+    try:
+        elements = parse(core.copy.deepcopy(schema))       # deepcopy keeps the sharing
+    except Exception:  # noqa: BLE001
+        return
+    root = elements[0]
+    plain, wr = root.properties["plain"].element, root.properties["wrapped"].element
+    from statham.schema.constants import NotPassed
+    want = core.enc_val(d)
+
+    def fail(what):
+        out.failures.append({"case": case, "what": what, "finding": None})
+
+    if not isinstance(getattr(plain, "default", NotPassed()), NotPassed):
+        fail(f"the default {d!r} written beside {kw} leaked to the other user of the shared schema (default {plain.default!r})")
+        return
+    for extra in elements[1:]:
+        if not isinstance(getattr(extra, "default", NotPassed()), NotPassed):
+            fail(f"the default {d!r} leaked to the definition itself")
+            return
+    found = find_defaults(core.dump_elem(wr))
+    if [v for _, v in found] != [want]:
+        fail(f"the wrapped use carries defaults {found}, expected exactly {want}")
+        return
+    doc = _plain(serialize_json(*elements))
+    jd = json_defaults(doc)
+    if [v for _, v in jd] != [want]:
+        fail(f"JSON serialization carries defaults {jd}, expected exactly one: {want}")
+        return
+    stats["shared-default-ok"] = stats.get("shared-default-ok", 0) + 1
+
+
 def run(ctx, scale=1.0):
     rng = random.Random(ctx["seed"] + 7)
     out = Outcome()
     out.rule = ("every default of the pool (7 falsy + 9 truthy + random JSON values) x 15 schema shapes x 5 positions; every description of the "
-                "whitespace / hostile / random pools on an object schema; a case is one (shape, position, default) or one description; "
+                "whitespace / hostile / random pools on an object schema; pairs of equally titled, equally shaped objects differing only in "
+                "their description (3 places); a default beside a one-member composition whose member object is shared with another place "
+                "(3 keywords x 8 defaults x 2 orders x 2 targets); a case is one (shape, position, default), one description, one pair or one sharing; "
                 "all non-trivial; distinct by SHA-256")
     stats = {}
     drv = core.Driver()
@@ -230,6 +342,20 @@ def run(ctx, scale=1.0):
         for desc in descs:
             if not core.has_surrogate(desc):
                 check_description(desc, out, stats)
+        # equally titled, equally shaped objects that differ in their description only
+        pool = [d for d in WHITESPACE_DESCRIPTIONS + ["First address.", "Second address.", "x"] if safe_description(d)]
+        for place in ("properties", "tuple-items", "nested"):
+            for _ in range(int((12 if ctx["tier"] == "quick" else 300) * scale)):
+                d1, d2 = rng.sample(pool, 2)
+                check_description_twins(d1, rng.choice([d2, d2, None]), place, out, stats)
+                if rng.random() < 0.3:
+                    check_description_twins(None, d2, place, out, stats)
+        # a default beside a one-member composition whose member is shared with another place
+        for kw in ("allOf", "anyOf", "oneOf"):
+            for d in FALSY[:4] + TRUTHY[:4]:
+                for order in ("plain-first", "wrapped-first"):
+                    for target in ("leaf", "array"):
+                        check_shared_default(kw, d, order, target, out, stats)
     finally:
         drv.close()
     out.stats = stats
@@ -248,7 +374,13 @@ def _replay_case(case):
     out, stats = Outcome(), {}
     drv = core.Driver()
     try:
-        if "description" in case:
+        if "twins" in case:
+            check_description_twins(case["twins"][0], case["twins"][1], case["place"], out, stats)
+        elif "shared_default" in case:
+            sd = case["shared_default"]
+            from harness import dsl as _dsl
+            check_shared_default(sd["keyword"], _dsl.dec_val(sd["default"]), sd["order"], sd["target"], out, stats)
+        elif "description" in case:
             check_description(case["description"], out, stats)
         else:
             from harness import dsl
